@@ -1,0 +1,29 @@
+//go:build verif
+// +build verif
+
+package audit
+
+import context "context"
+
+// verification hook: Recorder mentions the unexported type event, so it cannot
+// be implemented outside this package.
+
+type verifRecorder struct {
+	f func(tenant, kind string, payload map[string]string)
+}
+
+func (r verifRecorder) RecordEvent(tenant string, eventKind event, payload map[string]string) error {
+	if r.f != nil {
+		r.f(tenant, string(eventKind), payload)
+	}
+	return nil
+}
+func (r verifRecorder) Consume(ctx context.Context, consumer func(timestamp int64, tenant, service, eventKind string, payload map[string]string)) error {
+	<-ctx.Done()
+	return nil
+}
+
+// VerifRecorder returns a Recorder that hands every event to f (which may be nil).
+func VerifRecorder(f func(tenant, kind string, payload map[string]string)) Recorder {
+	return verifRecorder{f: f}
+}
